@@ -1298,6 +1298,9 @@ func (m *machine) chanSend(chv value, v value) {
 			panic(&targetPanic{v: m.rtErr("send on closed channel"), site: m.where()})
 		}
 	}
+	if len(ch.buf) == 0 && m.handoff(ch, v) {
+		return
+	}
 	ch.buf = append(ch.buf, copyVal(v))
 	m.hbChanSend(ch)
 }
@@ -1321,18 +1324,39 @@ func (m *machine) chanRecv(chv value, et types.Type) (value, bool) {
 			ch.fired = true
 			return m.zero(et), true
 		}
-		if !m.blockOn("chan receive", func() bool { return len(ch.buf) > 0 || ch.closed || ch.timer }) {
+		if !m.multi() {
+			m.end("deadlock", "receive on empty channel at "+m.where())
+		}
+		got, v, ok := m.blockRecv("chan receive", []*chanV{ch}, func() bool { return len(ch.buf) > 0 || ch.closed || ch.timer })
+		if got != nil {
+			return v, true
+		}
+		if !ok {
 			m.end("deadlock", "receive on empty channel at "+m.where())
 		}
 	}
 }
 
-func (m *machine) selectInstr(fr *frame, instr *ssa.Select) value {
-	type st struct {
-		ch   *chanV
-		send value
-		dir  types.ChanDir
+type selState struct {
+	ch   *chanV
+	send value
+	dir  types.ChanDir
+}
+
+func states2chans(sts []selState) []selState { return sts }
+
+func recvChans(sts []selState) []*chanV {
+	var out []*chanV
+	for _, s := range sts {
+		if s.ch != nil && s.dir != types.SendOnly && !s.ch.timer {
+			out = append(out, s.ch)
+		}
 	}
+	return out
+}
+
+func (m *machine) selectInstr(fr *frame, instr *ssa.Select) value {
+	type st = selState
 	var states []st
 	for _, s := range instr.States {
 		ch := fr.get(s.Chan).(*chanV)
@@ -1378,7 +1402,13 @@ func (m *machine) selectInstr(fr *frame, instr *ssa.Select) value {
 				}
 				return false
 			}
-			if m.blockOn("select", anyReady) {
+			if got, v, ok := m.blockRecv("select", recvChans(states2chans(states)), anyReady); got != nil {
+				for i, s := range states {
+					if s.ch == got && s.dir != types.SendOnly {
+						return m.selectResult(instr, i, v, true)
+					}
+				}
+			} else if ok {
 				continue
 			}
 		}
@@ -1405,7 +1435,13 @@ func (m *machine) selectInstr(fr *frame, instr *ssa.Select) value {
 					}
 					return false
 				}
-				if m.blockOn("select", anyReady) {
+				if got, v, ok := m.blockRecv("select", recvChans(states2chans(states)), anyReady); got != nil {
+					for i, s := range states {
+						if s.ch == got && s.dir != types.SendOnly {
+							return m.selectResult(instr, i, v, true)
+						}
+					}
+				} else if ok {
 					continue
 				}
 				// nobody else can run: the timer is the only way forward
@@ -1430,7 +1466,15 @@ func (m *machine) selectInstr(fr *frame, instr *ssa.Select) value {
 				}
 				return false
 			}
-			if !m.blockOn("select", anyReady) {
+			got, v, ok := m.blockRecv("select", recvChans(states2chans(states)), anyReady)
+			if got != nil {
+				for i, s := range states {
+					if s.ch == got && s.dir != types.SendOnly {
+						return m.selectResult(instr, i, v, true)
+					}
+				}
+			}
+			if !ok {
 				m.end("deadlock", "select with no ready case at "+m.where())
 			}
 			continue
